@@ -282,9 +282,11 @@ type fullReader struct {
 }
 
 func (f fullReader) Read(p []byte) (n int, err error) {
-	n, err = io.ReadFull(f.Reader, p)
-	if err == io.ErrUnexpectedEOF {
-		err = io.EOF
+	// like io.ReadFull, but a clean io.EOF stays io.EOF and a truncated stream's io.ErrUnexpectedEOF stays an error
+	for n < len(p) && err == nil {
+		var nn int
+		nn, err = f.Reader.Read(p[n:])
+		n += nn
 	}
 	return
 }
